@@ -114,10 +114,11 @@ T0 = datetime.datetime(2020, 1, 1)
 # --------------------------------------------------------------------------
 def gen_domain_spec(rng, finite_only=False, small=False):
     kinds = ["randint", "lograndint", "choice", "ordinal", "finrange", "logfinrange", "qrandint",
-             "single_choice", "single_randint", "single_finrange"]
+             "single_choice", "single_randint", "single_finrange", "single_lograndint", "single_logfinrange"]
     if not finite_only:
         kinds += ["uniform", "loguniform", "quniform", "single_uniform", "uniform", "loguniform",
-                  "loguniform_odd", "uniform_odd", "reverseloguniform"]
+                  "loguniform_odd", "uniform_odd", "reverseloguniform",
+                  "single_loguniform", "single_loguniform", "single_reverseloguniform", "single_uniform_odd"]
     k = rng.choice(kinds)
     if k == "uniform":
         lo = rng.choice([0.0, -1.5, 0.25, 10.0])
@@ -162,6 +163,22 @@ def gen_domain_spec(rng, finite_only=False, small=False):
         return ["finrange", 2.0, 2.0, 1, False]
     if k == "single_uniform":
         return ["uniform", 1.5, 1.5]
+    # lower == upper with values v for which exp(log(v)) or the mid-point formula need not give v back
+    if k == "single_loguniform":
+        v = rng.choice([0.1, 0.01, 0.05, 1e-3, 1e-5, 0.3, 7.0])
+        return ["loguniform", v, v]
+    if k == "single_reverseloguniform":
+        v = rng.choice([0.3, 0.9, 0.1, 0.999])
+        return ["reverseloguniform", v, v]
+    if k == "single_uniform_odd":
+        v = rng.choice([0.1, 0.3, 1e-2])
+        return ["uniform", v, v]
+    if k == "single_lograndint":
+        v = rng.choice([1, 3, 10])
+        return ["lograndint", v, v]
+    if k == "single_logfinrange":
+        v = rng.choice([0.1, 3.0])
+        return ["logfinrange", v, v, 1, False]
     raise AssertionError(k)
 
 
@@ -642,7 +659,7 @@ def small_finite_spec(rng):
 
 SCHED_KINDS = ["fifo-random", "fifo-grid", "fifo-bayesopt", "hb-stopping-random", "hb-promotion-random",
                "hb-stopping-bayesopt", "hb-promotion-hypertune", "dehb", "pbt"]
-NO_REPEAT = {"fifo-random", "fifo-grid", "fifo-bayesopt", "hb-stopping-random", "hb-promotion-random",
+NO_REPEAT = {"dehb", "fifo-random", "fifo-grid", "fifo-bayesopt", "hb-stopping-random", "hb-promotion-random",
              "hb-stopping-bayesopt", "hb-promotion-hypertune"}
 FAST_GP = dict(opt_maxiter=3, opt_nstarts=1, num_init_candidates=15, debug_log=False)
 
@@ -1241,6 +1258,11 @@ def run(ctx, replay=None):
                           pts=[{"lr": 0.1, "wd": 1e-2, "mom": 0.7, "layers": 4}, {"lr": 1e-6, "wd": 1e-5, "mom": 0.1, "layers": 1},
                                {"lr": 0.1, "wd": 1e-5}], num_init_random=2, max_suggest=6, ops=["suggest", "report"] * 8,
                           metrics=gen_metrics(rng, 16)))
+        for _ in range(ctx.n(10, 40)):     # DEHB driven until a 30-configuration space is (almost) used up
+            cases.append(dict(kind="sched", sched="dehb", retype_trial_configs=False, seed=rng.randrange(10 ** 6), pts=[],
+                              spec=[["a", "dom", ["randint", 0, 5]], ["b", "dom", ["choice", ["0", "1", "2", "3", "4"]]]],
+                              num_init_random=2, max_suggest=80, ops=(["suggest"] + ["report"] * 9) * 70,
+                              metrics=gen_metrics(rng, 40), directed="dehb_small_space_until_used_up"))
         for sp in ([["lr", "dom", ["loguniform", 1e-6, 0.1]], ["wd", "dom", ["loguniform", 1e-5, 1e-2]]],
                    [["a", "dom", ["loguniform", 0.3, 30.0]], ["b", "dom", ["reverseloguniform", 0.1, 0.9]]]):
             cases.append(dict(kind="mb", spec=sp, pts=[], seed=rng.randrange(10 ** 6), num_init_random=1,
